@@ -33,8 +33,8 @@ g) time values before 1970: (1) every zone that holds values of a time field get
    add_zone_range is called for a payload field (the pruner takes its candidates from the calendar only, so a zone without an entry is ruled out for every predicate); (2) TemporalPruner compares the
    zone temporal index (contains_ts, min_ts / max_ts) with the literal as given, not with the literal clamped to 0 (`at < -5` must not become `at < 0`); only calendar look-ups may use the clamped value.
 """
-FLOOR = 17
-REQUIRED = ["C08.a1", "C08.a2", "C08.a3", "C08.a4", "C08.b", "C08.c1", "C08.c2", "C08.c3", "C08.c4", "C08.c5", "C08.d", "C08.e", "C08.f", "C08.g", "C08.h", "C08.i", "C08.j"]
+FLOOR = 18
+REQUIRED = ["C08.a1", "C08.a2", "C08.a3", "C08.a4", "C08.b", "C08.c1", "C08.c2", "C08.c3", "C08.c4", "C08.c5", "C08.d", "C08.e", "C08.f", "C08.g", "C08.h", "C08.i", "C08.j", "C08.k"]
 
 
 def family(F, b):
@@ -776,3 +776,32 @@ def run(ctx):
             bad.append(("zone-left-out-of-xor-index", "ZoneXorFilterIndex::build_for_field goes on after a zone's filter could not be built and returns an index without that zone: zones_maybe_containing never reports it, i.e. it is pruned for every equality probe", sp(x, tf.bb)))
         return bad
     ctx.run("C08.j", "K2 CUT", "TemporalPruner::apply_temporal_only / ZoneXorFilterIndex::build_for_field", "a missing pruning structure means `cannot prune`", j_)
+
+    def k_(inst):
+        """Calendar bucket ids are 32 bits wide and compared by order (zones_for_ge / le / range). The map from a bucket start (u64
+        seconds) to its id must therefore be monotone: the narrowing cast in bucket_id takes a saturated value (Ord::min with the
+        largest id), never a masked / wrapped one - a wrapped id of a time after 2106 sorts among 1970..2106 and range lookups lose
+        the zone."""
+        bad = []
+        b = F.fn("TemporalCalendarIndex::bucket_id")
+        casts = []
+        for i_ in sorted(b.live_blocks()):
+            for st in b.blocks[i_]["s"]:
+                v = st.get("v") or {}
+                if v.get("r") == "cast" and len(st.get("a", [])) == 1 and b.local_ty(st["a"][0]) == "u32":
+                    pl = v["o"].get("m") or v["o"].get("c")
+                    if pl and b.local_ty(pl[0]) in ("u64", "i64", "usize"):
+                        casts.append((i_, v))
+                if v.get("r") == "bin" and v.get("op") in ("BitAnd", "Rem", "Shl", "Shr"):
+                    bad.append(("bucket-id-wraps", "TemporalCalendarIndex::bucket_id computes the id with %s: ids of buckets after 2106-02-07 wrap around and no longer order like time" % v.get("op"), sp(b, i_)))
+        ret_cast = [(i_, v) for i_, v in casts]
+        if not ret_cast:
+            raise AnchorMissing("the u64 -> u32 cast in TemporalCalendarIndex::bucket_id")
+        for i_, v in ret_cast:
+            L = b.origins(v["o"])
+            sat = any(l[0] == "call" and re.search(r"Ord::min$|::min$|saturating|try_from|clamp$", norm_path(l[1])) for l in L)
+            inst.sites.append("%s: cast operand <- %s" % (sp(b, i_), fmt_leaves(L)))
+            if not sat and not any(x[0] == "bucket-id-wraps" for x in bad):
+                bad.append(("bucket-id-wraps", "TemporalCalendarIndex::bucket_id narrows the bucket start to 32 bits without saturating it: ids of buckets after 2106-02-07 wrap around and no longer order like time", sp(b, i_)))
+        return bad
+    ctx.run("C08.k", "K7 PROV", "TemporalCalendarIndex::bucket_id", "calendar bucket ids order like the bucket starts", k_)
